@@ -103,6 +103,10 @@ def stored_mappings_verbatim(ctx, rule):
         v = stores[0].value
         if isinstance(v, ast.Name) and v.id in env:
             v = env[v.id]
+        # ids, *rest = encoder(..) ; self._X_mapping = tuple(rest): everything after the ids, as returned
+        if len(got) == 2 and got[1].startswith("*") and isinstance(v, ast.Call) and U(v.func) == "tuple" and len(v.args) == 1 and U(v.args[0]) == got[1][1:]:
+            ctx.ok(rule, f"{init.site()}::self.{attr}-is-the-encoder-output", f"self.{attr} = tuple of everything {enc} returns after the ids")
+            continue
         elts = [U(x) for x in v.elts] if isinstance(v, (ast.Tuple, ast.List)) else None
         want = got[-k:]
         if elts is None or len(elts) != k:
